@@ -1,7 +1,7 @@
 (* Properties/C17.v — Ticks are few enough, nice, ascending, inside the domain; Nice only expands.
    ONLY statements; each is closed by [exact] of a lemma from Proofs/Ticks*.v. *)
 From Coq Require Import Sorted.
-From MM Require Import Base.Num Model.Ticks Proofs.Ticks Proofs.TicksLinear Proofs.TicksNice Proofs.TicksLog Proofs.TicksLogExp Proofs.TicksLogNice Check.C17 Proofs.TicksCheck.
+From MM Require Import Base.Num Model.Ticks Proofs.Ticks Proofs.TicksLinear Proofs.TicksNice Proofs.TicksNiceRep Proofs.TicksLog Proofs.TicksLogExp Proofs.TicksLogNice Check.C17 Proofs.TicksCheck.
 Local Open Scope Z_scope.
 
 (* ================= FindLevel (ticks.go:56-101) ================= *)
@@ -136,12 +136,15 @@ Print Assumptions C17_linear_nice_count_nonincreasing.
 
 (* NICE IS IDEMPOTENT: every domain (proper, reversed, degenerate), every base, every options
    with Max * Base <= 10^9 (Base = 10 when the field is 0), every level window, whatever the
-   two starting guesses.  (Max >= 3 is not needed for this clause: when no level fits, the
-   domain is left as it is both times.) *)
+   two starting guesses - provided the candidate ends of the level Nice chooses are finite
+   float64 values in both calls (lin_nice_rep; it fails only at levels whose spacing overflows
+   float64, where the model's Nice leaves such an end alone).  (Max >= 3 is not needed for this
+   clause: when no level fits, the domain is left as it is both times.) *)
 Theorem C17_linear_nice_idempotent : forall base eb, lin_ebase base = Some eb ->
   forall mn mx o g g2 a b, (o_max o * eb <= 10 ^ 9)%Z ->
+  lin_nice_rep base mn mx o g -> lin_nice_rep base a b o g2 ->
   lin_nice base mn mx o g = NR_dom a b -> lin_nice base a b o g2 = NR_dom a b.
-Proof. exact lin_nice_idempotent. Qed.
+Proof. exact lin_nice_rep_idempotent. Qed.
 Print Assumptions C17_linear_nice_idempotent.
 
 (* AFTER NICE THE FIRST AND LAST MAJOR TICKS ARE THE NEW ENDS: whenever Nice found a level (it
@@ -151,13 +154,14 @@ Print Assumptions C17_linear_nice_idempotent.
    1e-10 (Max-Min) below/above a tick (repair D10) differs from the tick by at most that slack *)
 Theorem C17_linear_nice_ends_are_first_last_major : forall base eb mn mx o g g3 l a b major minor,
   lin_ebase base = Some eb -> mn < mx -> (o_max o * eb <= 10 ^ 9)%Z ->
+  lin_nice_rep base mn mx o g ->
   find_level o (lin_count base eb mn mx true) g = FL_ok l ->
   lin_nice base mn mx o g = NR_dom a b ->
   lin_ticks base a b o g3 = TR_ticks major minor ->
   exists t1 rest, major = t1 :: rest /\
     0 <= t1 - a <= (mx - mn) * slack_factor /\ 0 <= b - last major t1 <= (mx - mn) * slack_factor /\
     (a < mn -> t1 == a) /\ (mx < b -> last major t1 == b).
-Proof. exact lin_nice_ends_are_first_last_major. Qed.
+Proof. exact lin_nice_rep_ends_are_first_last_major. Qed.
 Print Assumptions C17_linear_nice_ends_are_first_last_major.
 
 (* FOR Max >= 3 NICE ALWAYS FINDS A LEVEL: whenever the top level of the window has a spacing
@@ -179,6 +183,16 @@ Example C17_linear_nice_example :
                   | TR_ticks ma _ => map Qred ma = [0; 1; 2; 3] | _ => False end
   | _ => False end.
 Proof. vm_compute. repeat split; reflexivity. Qed.
+
+(* the representability guard: [2, 3] at level 618 (spacing 10^309, not a float64): Min moves
+   to the multiple 0, Max stays (the ideal Nice would put it at 10^309) *)
+Example C17_linear_nice_overflow_example :
+  lin_nice 0 2 3 (mkOpts 3 618 618) 0 = NR_dom (0 * qpow 10 309) 3 /\
+  lin_nice_ideal 0 2 3 (mkOpts 3 618 618) 0 = NR_dom (0 * qpow 10 309) (1 * qpow 10 309).
+Proof. exact lin_nice_overflow_example. Qed.
+Example C17_linear_nice_rep_example :
+  lin_nice_rep 0 (3 # 10) (27 # 10) (mkOpts 4 0 0) 5 /\ lin_nice_rep 0 0 3 (mkOpts 4 0 0) (-3).
+Proof. exact lin_nice_rep_example. Qed.
 
 (* non-vacuity: [0.3, 2.7] (exact rationals), Max = 4 -> major 1, 2 at level 0, minor every 0.5;
    Nice -> [0, 3]; a domain around 0 with Max = 2 has no fitting level: Nice leaves it (D10) *)
